@@ -5,6 +5,7 @@ import PtnModel.Driver.BondOps
 import PtnModel.Driver.MPS
 import PtnModel.Driver.Hist
 import PtnModel.Driver.Heap
+import PtnModel.Driver.Evolution
 import PtnModel.Driver.Krylov
 /-!
 Line-protocol driver: one JSON object per input line (`{"op": name, ...}`), one JSON line out.
@@ -19,6 +20,7 @@ def handlers : List Handler := [
   Ptn.Drv.MPSDrv.handle,
   Ptn.Drv.HistDrv.handle,
   Ptn.Drv.HeapDrv.handle,
+  Ptn.Drv.EvoDrv.handle,
   Ptn.Drv.Krylov.handle
 ]
 
